@@ -1,4 +1,4 @@
-"""World for C25: a real Cluster + one Session + one HostStateListener over the virtual server,
+"""World for C25: a real Cluster + one (or several) Session(s) + one HostStateListener over the virtual server,
 with recording load-balancing policy, and the observation helpers the C25 oracle uses.
 
 Nothing here decides the verdict with driver code: the observers only *read* driver state
@@ -14,6 +14,29 @@ from cassandra.cluster import (ExecutionProfile, GraphExecutionProfile, GraphAna
 from cassandra.policies import (LoadBalancingPolicy, HostDistance, HostStateListener,
                                 ConstantReconnectionPolicy)
 from cassandra.pool import _HostReconnectionHandler
+
+from weakref import WeakSet, ref as _ref
+
+
+class OrderedWeakSet(WeakSet):
+    """Cluster.sessions is a WeakSet, whose iteration order is the hash (= address) order of the Session objects,
+    i.e. accidental.  This stand-in iterates in insertion order, so that "the first session on_add()/on_up() asks
+    for a pool" is the session created first in every rebuilt world (both orders of completion are still enumerated:
+    the explorer picks which queued pool creation runs first)."""
+    def __init__(self, data=None):
+        self._order = []
+        WeakSet.__init__(self, data)
+
+    def add(self, item):
+        if item not in self:
+            self._order.append(_ref(item))
+        WeakSet.add(self, item)
+
+    def __iter__(self):
+        for r in list(self._order):
+            item = r()
+            if item is not None and item in self:
+                yield item
 
 
 def addr_of(host):
@@ -157,6 +180,8 @@ class HostWorld(object):
         ignored   addresses the policy reports IGNORED
         delay     reconnection delay (ConstantReconnectionPolicy)
         listener_before_connect  register the listener before connect() (default: after setup)
+        sessions  number of sessions connected to the cluster (default 1); Cluster.sessions then iterates in
+                  creation order (OrderedWeakSet)
     """
 
     def __init__(self, params):
@@ -165,10 +190,12 @@ class HostWorld(object):
         self.addrs = ['10.0.0.%d' % (i + 1) for i in range(n)]
         self.server = VServer([HostSpec(a) for a in self.addrs])
         self.spec = dict((h.address, h) for h in self.server.hosts)
-        self.mode = dict((a, 'up') for a in self.addrs)          # up | down | auth
+        # up | down | auth | once (= refuses exactly the next connection attempt, then is up again)
+        self.mode = dict((a, 'up') for a in self.addrs)
         self.gone = set(p.get('initial_gone', ()))                # not in the peers table
         self.server.peer_rows_override = self._peer_rows
         self.server.on_request = self._on_request
+        self.server.on_connect = self._on_connect
         self.w = World(self.server, trace=p.get('trace', False))
         self.w.__enter__()
         try:
@@ -193,7 +220,13 @@ class HostWorld(object):
             # the control connection keeps its own reference to the time module ("for testing purposes")
             from vt.world import vworld as _vw
             self.cluster.control_connection._time = _vw._VTime
-            self.session = self.cluster.connect(wait_for_all_pools=True)
+            nsess = p.get('sessions', 1)
+            if nsess > 1:
+                self.cluster.sessions = OrderedWeakSet(self.cluster.sessions)
+            self.sessions = [self.cluster.connect(wait_for_all_pools=True) for _ in range(nsess)]
+            self.session = self.sessions[0]
+            if nsess > 1 and tuple(self.cluster.sessions) != tuple(self.sessions):
+                raise RuntimeError('Cluster.sessions does not iterate in creation order')
             self.w.settle()
             self.cluster.register_listener(self.listener)
             self.initial_members = dict((addr_of(h), h.is_up) for h in self.cluster.metadata.all_hosts())
@@ -224,9 +257,20 @@ class HostWorld(object):
             return wire.OP_AUTHENTICATE, wire.w_string('org.apache.cassandra.auth.PasswordAuthenticator')
         return None
 
+    def _on_connect(self, conn):
+        a = conn.endpoint.address
+        once = self.mode.get(a) == 'once'
+        if once:
+            self.mode[a] = 'up'         # this attempt is the one that is refused (spec.up is still False)
+        try:
+            return VServer.on_connect(self.server, conn)
+        finally:
+            if once:
+                self.spec[a].up = True
+
     def set_mode(self, addr, mode):
         self.mode[addr] = mode
-        self.spec[addr].up = mode != 'down'
+        self.spec[addr].up = mode not in ('down', 'once')
 
     # ------------------------------------------------------------------ lookups
     def host(self, addr):
@@ -250,9 +294,9 @@ class HostWorld(object):
     def in_metadata(self, addr):
         return self.cluster.metadata.get_host(addr) is not None
 
-    def pool(self, addr):
+    def pool(self, addr, si=0):
         h = self.host(addr)
-        return self.session._pools.get(h) if h is not None else None
+        return self.sessions[si]._pools.get(h) if h is not None else None
 
     def control_conn(self):
         return self.cluster.control_connection._connection
@@ -282,17 +326,17 @@ class HostWorld(object):
         return [(h, where) for h, where in self.handlers() if addr_of(h.host) == addr and not h._cancelled]
 
     # ------------------------------------------------------------------ events
-    def fail_pool_connection(self, addr):
-        """The connection of the session's pool for addr dies and the pool is told about it the way
-        the heartbeat thread does (ConnectionHeartbeat.run: 'make sure the owner sees this
+    def fail_pool_connection(self, addr, si=0):
+        """The connection of the pool that session number si has for addr dies and the pool is told about it
+        the way the heartbeat thread does (ConnectionHeartbeat.run: 'make sure the owner sees this
         defunct/closed connection')."""
-        pool = self.pool(addr)
+        pool = self.pool(addr, si)
         conn = pool._connection
         conn.defunct(OSError(104, 'Connection reset by peer'))
         pool.return_connection(conn)
 
-    def can_fail(self, addr):
-        pool = self.pool(addr)
+    def can_fail(self, addr, si=0):
+        pool = self.pool(addr, si)
         if pool is None or pool.is_shutdown:
             return False
         c = pool._connection
@@ -314,7 +358,7 @@ class HostWorld(object):
         fut = t[0]
         if h is not None and not h._cancelled and not fut.cancelled():
             mode = self.mode.get(addr_of(h.host))
-            self.stats['reconnect_' + {'up': 'ok', 'down': 'fail', 'auth': 'auth'}[mode]] += 1
+            self.stats['reconnect_' + {'up': 'ok', 'down': 'fail', 'once': 'fail', 'auth': 'auth'}[mode]] += 1
             if mode == 'auth':
                 self.auth_stopped.append(h)
         self.w.run_task(i)
